@@ -71,6 +71,10 @@ DOC_NASTY = ["", " ", "abc", "2020-13-01", "24:61", "1e999999", "9" * 5000, 1e30
 
 NAME_NASTY = ["m\x000", "m0\x1f", "\ufffe", "m0\ud800", "", " ", "m0 ", "<m0>", "m0&", "{urn:x}m0", "m" * 5000,
               "\u202em0", "m0\n", "%s", "%(x)s", "{0}", "\\"]
+SWEEP = 6        # nasty literals per leaf in the systematic part of a struct case
+ALWAYS = ["c3\u00e9a", "\u00c0\u00c1", "-0"]     # ... plus these for every leaf (non-ASCII text where
+#                                                  ASCII-only lexical spaces are expected)
+
 XSI_TYPE_NASTY = ["t:x:Item", "::", ":", "a:", ":b", "xs:string:x", "", " ", "{urn:x}y", "x" * 5000,
                   "xs:", "nope:string", "xsi:type", "a b", "\u00e9:\u00e9"]
 
@@ -323,6 +327,22 @@ def xml_struct_mutants(T, muts):
             out.append((kind, etree.tostring(doc)))
         except Exception:
             continue
+    # systematic part: every leaf (up to 12) gets a window of the nasty list that rotates with
+    # the case, so that each (leaf type, nasty literal) pair is met many times per tier
+    off = (muts[0][1] if muts else 0) % len(XML_NASTY)
+    window = [XML_NASTY[(off + j) % len(XML_NASTY)] for j in range(SWEEP)] + ALWAYS
+    nleaves = len([e for e in base.iter() if isinstance(e.tag, str) and len(e) == 0])
+    for li in range(min(nleaves, 12)):
+        for nasty in window:
+            if len(nasty) > 2000:
+                continue
+            doc = copy.deepcopy(base)
+            leaf = [e for e in doc.iter() if isinstance(e.tag, str) and len(e) == 0][li]
+            try:
+                leaf.text = _xmltext(nasty)
+                out.append(("leaf-sweep", etree.tostring(doc)))
+            except Exception:
+                continue
     if T.soap:
         ns = c01.SOAP11 if T.prot == "soap11" else c01.SOAP12
         other = c01.SOAP12 if T.prot == "soap11" else c01.SOAP11
@@ -398,6 +418,19 @@ def dict_struct_mutants(T, muts):
         except Exception:
             continue
         out.append((kind, body))
+    off = (muts[0][1] if muts else 0) % len(DOC_NASTY)
+    window = [DOC_NASTY[(off + j) % len(DOC_NASTY)] for j in range(SWEEP)]
+    leafp = [p for p in paths if len(p) and not isinstance(c04._get(doc, p), (dict, list))][:10]
+    for p in leafp:
+        for nasty in window:
+            if isinstance(nasty, str) and len(nasty) > 2000:
+                continue
+            d2 = copy.deepcopy(doc)
+            try:
+                c04._set(d2, p, copy.deepcopy(nasty))
+                out.append(("leaf-sweep", c02.dumps(T.case["base"], d2)))
+            except Exception:
+                continue
     if T.prot == "json":
         out += [("json-lone-surrogate", b'{"m0": {"a": "\\ud800"}}'), ("json-huge-number", b'{"m0": {"a": 1' + b"0" * 400 + b"}}"),
                 ("json-deep", b"[" * 3000 + b"]" * 3000), ("json-dup-keys", b'{"m0": {}, "m0": {}}'),
@@ -463,6 +496,17 @@ def http_struct_mutants(T, muts):
         else:
             ps[i] = (k, "empty"); kind = "empty-marker"
         out.append((kind, ref_flat.query_string(ps).encode("ascii")))
+    off = (muts[0][1] if muts else 0) % len(XML_NASTY)
+    for i in range(min(len(pairs), 10)):
+        for j in range(SWEEP + len(ALWAYS)):
+            nasty = (XML_NASTY[(off + j) % len(XML_NASTY)] if j < SWEEP else ALWAYS[j - SWEEP])[:2000]
+            try:
+                nasty.encode("utf8")
+            except UnicodeEncodeError:
+                continue
+            ps = list(pairs)
+            ps[i] = (ps[i][0], nasty)
+            out.append(("leaf-sweep", ref_flat.query_string(ps).encode("ascii")))
     out += [("raw-percent", b"a=%zz&b=%"), ("no-equals", b"abc"), ("only-amp", b"&&&;;"), ("bad-utf8", b"a=%ff%fe"),
             ("plus", b"a=+&b=1+2"), ("long-key", b"a" * 5000 + b"=1")]
     # the method name comes from the URL path
